@@ -2,7 +2,7 @@
 The context poll counter only grows and the cancellation point never changes, for every model
 function: hence a cancelled context stays cancelled (C02).
 -/
-import Anko.Model.Eval
+import Anko.Proofs.EvalSig
 
 set_option linter.unusedSectionVars false
 set_option linter.unusedVariables false
@@ -81,11 +81,8 @@ theorem later_spreadFixed (cal : Callee) (nLead numExprs : Nat) (lead : List RV)
     · exact later_fail _ _
 theorem later_spreadVariadic (lead : List RV) (s2 : St) : Later s2 (spreadVariadic lead s2).2 := by
   unfold spreadVariadic
-  split
-  · exact Later.refl _
-  · split
-    · exact later_markUnsup _ _
-    · exact later_fail _ _
+  repeat' split
+  all_goals (first | exact Later.refl _ | exact later_markUnsup _ _ | exact later_fail _ _)
 
 /-- with-updates of the runInfo registers and the trace do not touch polls / cancelAt -/
 theorem later_of_eq (s r : St) (h1 : r.cancelAt = s.cancelAt) (h2 : r.polls = s.polls) : Later s r :=
